@@ -121,7 +121,7 @@ def check_property(prop, tier):
                 if prop in ("C01", "C02", "C12"):
                     mon = run_monitor(r["states_file"], "%s-%s" % (cfg, profile))
                     add_monitor(v, mon, r["states_file"], "%s-%s" % (cfg, profile),
-                                "Forest.tla link-level formulas (WellFormed / Acyclic / Bare) evaluated by TLC on every distinct real state met during replay")
+                                "Forest.tla link-level formulas (WellFormed / Acyclic / Bare / NoLinkToRemoved) evaluated by TLC on every distinct real state met during replay", replay=r)
         if prop == "C08":
             path, meta = ensure_bundles(bundle_cfgs[0])
             r = run_replay(build_harness("debug"), path, ["--tracked"], "C08-tracked")
@@ -550,13 +550,15 @@ def replay_file(prop, path):
         v.add_findings(res["findings"], "replay")
     elif "replay_cmd" in f and case.get("path") is not None:
         rc_ = f["replay_cmd"]
-        want = json.dumps(case["path"], sort_keys=True)
+        def norm(path_):
+            return json.dumps([[c.get("op"), c.get("a", 0), c.get("b", 0), c.get("v", 0), bool(c.get("checked", False))] for c in path_])
+        want = norm(case["path"])
         one = os.path.join(vlib.RUN, "one.ndjson.gz")
         import gzip
         found = False
         with gzip.open(rc_["bundles"], "rt") as fin, gzip.open(one, "wt") as fout:
             for line in fin:
-                if line.startswith("{") and json.dumps(json.loads(line)["path"], sort_keys=True) == want:
+                if line.startswith("{") and norm(json.loads(line)["path"]) == want:
                     fout.write(line)
                     found = True
                     break
@@ -565,6 +567,9 @@ def replay_file(prop, path):
         b = build_harness(rc_.get("profile", "debug"))
         res = run_replay(b, one, rc_["flags"], "replay-one")
         v.add_findings(res["findings"], "replay")
+        if rc_.get("monitor"):
+            mon = run_monitor(res["states_file"], "replay-one")
+            add_monitor(v, mon, res["states_file"], "replay-one", "Monitor.tla on the states of the replayed bundle")
     else:
         print(json.dumps(f, indent=1)[:6000])
         print("this kind of finding has no automatic replay; the case is printed above")
